@@ -45,6 +45,7 @@ def cases(draw, tier="quick"):
         chosen.append("iter")
     used = set(m.idents) | {spec["ident"], spec["ident"] + "Iter", spec["ident"] + "Names"}
     feats = []
+    struct_used = set()
     for f in chosen:
         ps = []
         if f in E.MODE_FEATURES:
@@ -66,8 +67,9 @@ def cases(draw, tier="quick"):
             fn_names = [p_[1] for ff in feats for p_ in ff["params"] if p_[0] == "name"] + [p_[1] for p_ in ps if p_[0] == "name"]
             sn = draw(st.sampled_from(["My%sStruct" % f.capitalize(), "It_%s" % f, "Σ%s" % f.capitalize()] + fn_names[-2:] + ["MIN"]))
             # a module-level struct may share its name with an associated fn / const (different namespaces)
-            if sn not in used or sn in fn_names:
+            if (sn not in used or sn in fn_names) and sn not in struct_used:
                 used.add(sn)
+                struct_used.add(sn)
                 ps.append(["struct_name", sn])
         feats.append({"f": f, "params": ps})
     if len(feats) > 1:
